@@ -38,6 +38,8 @@ func (v c06Variant) axis() AxisDesc {
 		a.Min, a.Max = 0, 255
 	case "s16":
 		a.Min, a.Max = -32768, 32767
+	case "u16":
+		a.Min, a.Max = 0, 65535
 	case "hat":
 		a.Min, a.Max = -1, 1
 	}
@@ -111,16 +113,16 @@ func gridC06(res *vutil.Result, tier string, shard, nshards int) {
 	if tier == "thorough" {
 		dzs = []float64{0, 0.01, 0.05, 0.06, 0.09, 0.1, 0.13, 0.21, 0.25, 0.33, 0.5, 0.75, 0.9, 0.99}
 	}
-	for _, rng := range []string{"s8", "u8", "hat", "s16"} {
+	for _, rng := range []string{"s8", "u8", "hat", "s16", "u16"} {
 		for _, src := range []string{"axis", "handler"} {
 			for _, dz := range dzs {
 				for _, flip := range []bool{false, true} {
 					for _, center := range []bool{false, true} {
-						if center && rng != "u8" {
+						if center && rng != "u8" && rng != "u16" {
 							continue // deadzone_at_center only on axes with min 0
 						}
 						for _, tgt := range []string{"cc", "bidir", "bend"} {
-							if tgt == "bidir" && rng == "u8" && !center {
+							if tgt == "bidir" && (rng == "u8" || rng == "u16") && !center {
 								continue // quantifier: bidirectional on signed and centred unsigned axes
 							}
 							vs = append(vs, c06Variant{rng, src, dz, flip, center, tgt})
@@ -222,7 +224,7 @@ func c06Positions(v c06Variant, a *AxisDesc) []int32 {
 		}
 	case "hat":
 		ps = []int32{-1, 0, 1}
-	case "s16":
+	case "s16", "u16":
 		seen := map[int32]bool{}
 		add := func(c float64) {
 			for d := int32(-3); d <= 3; d++ {
@@ -233,7 +235,11 @@ func c06Positions(v c06Variant, a *AxisDesc) []int32 {
 				}
 			}
 		}
-		for _, c := range []float64{-32768, -v.DZ * 32768, 0, v.DZ * 32767, 32767, -16384, 16383.5, -32768 * (v.DZ + (1-v.DZ)/2), 32767 * (v.DZ + (1-v.DZ)/2)} {
+		centres := []float64{-32768, -v.DZ * 32768, 0, v.DZ * 32767, 32767, -16384, 16383.5, -32768 * (v.DZ + (1-v.DZ)/2), 32767 * (v.DZ + (1-v.DZ)/2)}
+		if v.Range == "u16" {
+			centres = []float64{0, 65535, 32767.5, 16384, 49151, v.DZ * 65535, 32767.5 - v.DZ*32767.5, 32767.5 + v.DZ*32767.5}
+		}
+		for _, c := range centres {
 			add(c)
 		}
 		for x := a.Min; x <= a.Max; x += 257 {
@@ -256,8 +262,20 @@ func runC06(res *vutil.Result, v c06Variant, tier string) {
 	g, a := buildC06(v)
 	ps := c06Positions(v, a)
 	prevs := ps
-	if v.Range == "s16" {
-		prevs = []int32{a.Min, -9000, 0, 12345, a.Max}
+	if v.Range == "s16" || v.Range == "u16" {
+		// previous positions: samples, plus everything within 3 of an end stop, of the centre and of the
+		// deadzone edges (a transmitted value may only be skipped when it really is a repetition)
+		prevs = []int32{a.Min, a.Min + (a.Max-a.Min)/3, a.Min + (a.Max-a.Min)/2, a.Max - (a.Max-a.Min)/5, a.Max}
+		mid := float64(a.Min) + (float64(a.Max)-float64(a.Min))/2
+		half := (float64(a.Max) - float64(a.Min)) / 2
+		near := []float64{float64(a.Min), float64(a.Max), mid, mid - v.DZ*half, mid + v.DZ*half, float64(a.Min) + v.DZ*2*half}
+		for _, c := range near {
+			for d := int32(-3); d <= 3; d++ {
+				if x := int32(c) + d; x >= a.Min && x <= a.Max {
+					prevs = append(prevs, x)
+				}
+			}
+		}
 	}
 	rc := &c06Recv{cc: map[[2]int]int{}, bend: map[int]int{}}
 	ch := g.ref.Ch
